@@ -20,7 +20,7 @@ FAMS = gen.ALL_FAMILIES
 
 
 def floors(tier):
-    return {"states_checked": 3000, "results_checked": 500, "restarts_checked": 100, "accepted_not_last_trial": 10, "scaled_runs": 30, "runs_with_reused_gradient_buffer": 80,
+    return {"states_checked": 3000, "results_checked": 500, "restarts_checked": 100, "accepted_not_last_trial": 10, "scaled_runs": 30, "runs_with_reused_gradient_buffer": 80, "runs_with_logger": 200,
             "callback_states_reinspected_after_the_run": 3000, "runs_from_a_start_beyond_unit_step_resolution": 12, "runs_that_could_not_leave_x0": 4, "results_with_non_finite_gradient": 10, "__nontrivial__": 40}
 
 
@@ -50,6 +50,9 @@ def cases(tier, seed):
             ps["start_scale"] = float(gen.pick(rng, [1e17, 1e18, 1e20]))
             cfg["jac"] = "callable"
             cfg["scaler"] = float(np.exp(rng.uniform(np.log(1e-3), np.log(1e3))))
+        if i % 4 == 2:
+            cfg["logger"] = True  # a user-supplied logger: displays must not touch what is returned
+            cfg["iprint"] = int(gen.pick(rng, [0, 0, 1, 3, 99, 101]))
         if i % 20 == 7:
             # gradient +inf at the solution (variables ending on the bound 0 of a square-root term)
             ps = gen.rand_spec(rng, ("sqrt_floor",), nmax=6, boxes=("none", "upper"), starts=("interior",))
@@ -184,6 +187,8 @@ def run(spec):
             break
         if cfg.get("reuse_grad_buffer"):
             out.count("runs_with_reused_gradient_buffer")
+        if cfg.get("logger"):
+            out.count("runs_with_logger")
         if P.spec["family"] == "sqrt_floor":
             out.count("runs_on_objective_with_infinite_gradient_at_a_bound")
             if tr.snap is not None and not np.all(np.isfinite(np.asarray(tr.snap["jac"], dtype=float))):
